@@ -5,7 +5,7 @@ from common import Expander
 from props.C15 import per_trait, ENTRY_ITEMS
 
 LEVEL = "other"
-G_UNITS = {"entry": ["DeriveEntry::apply_dump"]}
+G_UNITS = {"entry": ["DeriveEntry::apply_dump", "DeriveEntry::from_args_list"]}
 
 
 def canon_of(ex, text):
@@ -106,7 +106,7 @@ def run(ctx):
     ex.close()
     g = glayer.run_g(ctx, G_UNITS)
     ctx.assumptions += [
-        "contract core (layer G, Verus): DeriveEntry::apply_dump returns the generated stream unchanged when dump is off, an error stream when dump is on or generation failed; format!(\"dump:\\n{ts}\") and Error::to_compile_error are out of reach (message text is not modelled)",
+        "contract core (layer G, Verus): DeriveEntry::from_args_list: one entry per listed trait in list order, entry.dump == (shared dump of its own list || its own dump) -- so a dump never leaks to other entries; DeriveEntry::apply_dump returns the generated stream unchanged when dump is off, an error stream when dump is on or generation failed; format!(\"dump:\\n{ts}\") and Error::to_compile_error are out of reach (message text is not modelled)",
         "the token-for-token claim is decided by the bounded layer: message payload re-lexed with proc_macro2 and compared (canonical token rendering) with the undumped expansion, for every trait position of every generated program, per-trait and shared dump, and impl items",
     ]
     cov = {"explanation": "apply_dump under contract (Verus) + bounded metamorphic check of the dump payload through the real expander",
